@@ -105,7 +105,7 @@ fn inflate_clone_case(s: &GenStream, chunk: usize, room: usize) -> Result<u64, S
         let mut a = st.clone();
         let mut b2 = Box::new((*st).clone());
         let ra = inflate_loop_from(&mut a, &s.bytes, ip, usize::MAX, 1 << 16, MZFlush::None, out.clone());
-        let rb = inflate_loop_from(&mut b2, &s.bytes, ip, 1, 3, MZFlush::None, out.clone());
+        let rb = if s.bytes.len() > 5000 { inflate_loop_from(&mut b2, &s.bytes, ip, 777, 500, MZFlush::None, out.clone()) } else { inflate_loop_from(&mut b2, &s.bytes, ip, 1, 3, MZFlush::None, out.clone()) };
         if ra.code != rb.code && !(ra.code < 0 && rb.code < 0) || ra.out != rb.out && ra.code == 1 {
             return Err(format!("clone of InflateState after {} calls: code {} vs {}, {} vs {} bytes", points - 1, ra.code, rb.code, ra.out.len(), rb.out.len()));
         }
@@ -255,6 +255,9 @@ pub fn run(tier: &str) -> i32 {
                 }
             }
             for (chunk, room) in [(1usize, 3usize), (7, 100)] {
+                if s.bytes.len() > 5000 {
+                    continue;
+                }
                 match guarded(|| inflate_clone_case(s, chunk, room)) {
                     Ok(Ok(p)) => {
                         acc.0 += p;
@@ -271,7 +274,32 @@ pub fn run(tier: &str) -> i32 {
             transitions += r.1;
             traces += r.2;
         }
-        rep.set("snapshot_streams", json!(ss.len()));
+        // InflateState clones after the 32 KiB window has wrapped (outputs of 40-180 KB with
+        // matches reaching across the wrap), coarse schedules
+        let mut bigs: Vec<GenStream> = vec![];
+        bigs.extend(streams::stored_edges(None).into_iter().rev().take(1));
+        bigs.extend(streams::stored_edges(Some((7, 2))).into_iter().rev().take(1));
+        bigs.extend(streams::length_distance_sweeps(None, false, &[streams::Coding::Fixed], 11).into_iter().step_by(if th { 7 } else { 23 }));
+        let bres = par_for(bigs.len() * 3, || (0u64, 0u64, 0u64), |ix, acc| {
+            let s = &bigs[ix / 3];
+            let (chunk, room) = [(4096usize, 1000usize), (usize::MAX, 4093), (1000, 32768)][ix % 3];
+            watchdog::tick(800_000 + ix as u64, 0);
+            match guarded(|| inflate_clone_case(s, chunk, room)) {
+                Ok(Ok(p)) => {
+                    acc.0 += p;
+                    acc.1 += 2 * p;
+                    acc.2 += 1;
+                }
+                Ok(Err(e)) => rep.violation("C19/inflate-state-clone", format!("{} [{}] chunk {} room {}", e, s.desc, chunk as isize, room), json!({"kind": "inflate-clone-big", "desc": s.desc, "zlib": s.zlib, "chunk": chunk.min(1 << 40), "room": room})),
+                Err(p) => rep.violation("C19/panic", format!("panic {} [{}]", p, s.desc), json!({"kind": "inflate-clone-big", "desc": s.desc})),
+            }
+        });
+        for r in bres {
+            states += r.0;
+            transitions += r.1;
+            traces += r.2;
+        }
+        rep.set("snapshot_streams", json!(ss.len() + bigs.len()));
     }
     #[cfg(feature = "bb")]
     {
